@@ -211,14 +211,21 @@ func runProp(id, tier string, rp *replayReq) int {
 		err error
 		out string
 	}
-	builds := make([]built, len(vars))
+	// variants with the same (race, shim) flags share one binary
+	bkey := func(v variant) string { return fmt.Sprintf("race=%v-shim=%v", v.Race, v.Shim != "") }
+	keyed := map[string]*built{}
 	var wg sync.WaitGroup
-	for i, v := range vars {
+	for _, v := range vars {
+		k := bkey(v)
+		if keyed[k] != nil {
+			continue
+		}
+		b := &built{bin: filepath.Join(work, k+".test")}
+		keyed[k] = b
 		wg.Add(1)
-		go func(i int, v variant) {
+		go func(v variant, b *built) {
 			defer wg.Done()
-			bin := filepath.Join(work, v.Name+".test")
-			args := []string{"test", "-c", "-tags", "verif", "-o", bin}
+			args := []string{"test", "-c", "-tags", "verif", "-o", b.bin}
 			if v.Race {
 				args = append(args, "-race")
 			}
@@ -229,13 +236,15 @@ func runProp(id, tier string, rp *replayReq) int {
 			cmd := exec.Command(goTool, args...)
 			cmd.Dir = verifDir
 			out, err := cmd.CombinedOutput()
-			builds[i] = built{bin: bin, err: err, out: string(out)}
-		}(i, v)
+			b.err, b.out = err, string(out)
+		}(v, b)
 	}
 	wg.Wait()
-	for i, b := range builds {
-		if b.err != nil {
-			fmt.Printf("BUILD-FAILED property=%s variant=%s\n%s\n", id, vars[i].Name, b.out)
+	builds := make([]built, len(vars))
+	for i, v := range vars {
+		builds[i] = *keyed[bkey(v)]
+		if builds[i].err != nil {
+			fmt.Printf("BUILD-FAILED property=%s variant=%s\n%s\n", id, v.Name, builds[i].out)
 			return 2
 		}
 	}
